@@ -168,8 +168,8 @@ def pow_table(b, d, hi=40):
 
 
 def expr_text(kind, a, b, d, n):
-    return {"pow": f"{a}**{n}", "pow_tower": f"{a}**{b}**{d}", "factorial": f"factorial({n})", "str_repeat": f"'ab'*{n}",
-            "list_repeat": f"[0, 1]*{n}", "int_mult": f"(2**{d})*(2**{d})*{a}", "sum_small": f"{a}+{b}+{d}"}[kind]
+    return {"pow": f"({a})**{n}", "pow_tower": f"{a}**{b}**{d}", "factorial": f"factorial({n})", "str_repeat": f"'ab'*{n}",
+            "list_repeat": f"[0, 1]*{n}", "int_mult": f"(2**{n})*(2**{n})*({a})", "sum_small": f"{a}+{b}+{d}"}[kind]
 
 
 def resource():
@@ -187,7 +187,11 @@ def resource():
     def h(c):
         kind = c.choice("shape", SHAPES)
         timeout_s = c.choice("timeout_seconds", [1.0, 0.5, 4.0])
-        a = c.int("a", 2, (1 << 40) if kind in ("pow", "int_mult") else 9)
+        if kind in ("pow", "int_mult"):
+            a = c.int("a", -(1 << 40), (1 << 40))                 # either sign; |a| >= 2
+            c.assume(b_or(a >= 2, a <= -2))
+        else:
+            a = c.int("a", 2, 9)
         b = c.choice("b", [2, 3, 9]) if kind in ("pow_tower", "sum_small") else 2
         d = c.int("d", 2, 40)
         n = c.int("n", 1, (1 << 40))
@@ -217,7 +221,9 @@ def resource():
                 return SInt.wrap(core._int_term(pow_table(l, r)))        # the inner b**d, exact
             lo = (bits_of(l) - 1) * r                                     # the result has at least this many bits
             c.check("C01.d", lo <= budget, {"what": "power whose result cannot be produced within the timeout was evaluated", **info}, regions=regions)
-            return Big(bits_of(l) * r)
+            if isinstance(l, int) and l > 0 and l & (l - 1) == 0:
+                return Big(lo + 1)                                        # a power of two: exact
+            return Big(between(lo + 1, bits_of(l) * r))
 
         def mon_mult(l, r):
             for seq, k in ((l, r), (r, l)):
@@ -228,7 +234,7 @@ def resource():
             if isinstance(l, (SInt, Big)) or isinstance(r, (SInt, Big)):
                 lo = bits_of(l) + bits_of(r) - 1
                 c.check("C01.d", lo <= budget, {"what": "big-integer product beyond the timeout's budget was evaluated", **info}, regions=regions)
-                return Big(bits_of(l) + bits_of(r))
+                return Big(between(lo, lo + 1))
             return _op.mul(l, r)
 
         def mon_fact(x):
@@ -236,8 +242,15 @@ def resource():
                 # n! has at least n * (log2(n) - 2) bits
                 lo = x * (x.bit_length() - 2)
                 c.check("C01.d", lo <= budget, {"what": "factorial whose result cannot be produced within the timeout was evaluated", **info}, regions=regions)
-                return Big(x * x.bit_length())
+                return Big(between(ite(lo >= 1, lo, 1), x * x.bit_length()))
             return math.factorial(x)
+
+        def between(lo, hi):
+            """the size of a result known only up to an interval: a fresh integer in [lo, hi] (the guard under test
+            and the monitors downstream see the same unknown; the C01.d assertions use the LOWER bounds only)"""
+            v = c.fresh_int("bits")
+            c.assume(b_and(v >= lo, v <= hi))
+            return v
 
         ops = dict(type(mito).SAFE_OPERATORS)
         ops[ast.Pow] = mon_pow
